@@ -103,13 +103,27 @@ package db
 
 // newCreateTable: automatic indexes are numbered in creation order: the counter passed into every
 // index name is one more than the number of automatic indexes created so far.
+// Column rule (first loop): a reported column carries the definition's name, type, default and
+// collation; it aliases the rowid iff it is a column-level PRIMARY KEY of a rowid table that isRowid
+// accepts; a PRIMARY KEY column of a WITHOUT ROWID table is NOT NULL whatever the text says.
+// Table-constraint rule (second loop): names and types stay; a column is only ever marked as the rowid
+// alias in a rowid table and when its declared type is INTEGER.
+//@ macro ISROWID(tc, typ, dir) = streq(str_upper(typ), "INTEGER") && (tc || dir == 0)
+//@ macro COLRULE(ct, c, col) = col.Column == c.Name && col.Type == c.Type && col.Default == c.Default && col.Collate == c.Collate && (col.Rowid <==> (c.PrimaryKey && !ct.WithoutRowid && ISROWID(false, c.Type, c.PrimaryKeyDir))) && (col.Null <==> ite(c.PrimaryKey, !ct.WithoutRowid && c.Null, c.Null))
+//@ macro COLSTABLE(ct, c, col) = col.Column == c.Name && col.Type == c.Type && (col.Rowid ==> !ct.WithoutRowid && streq(str_upper(col.Type), "INTEGER"))
 //@ func db.newCreateTable
 //@   props C10 C05
 //@   modifies alloc mem heap box created
 //@   ghost-entry created = 0
 //@   ensures [result] r1 == nil ==> r0 != nil
 //@   loop 1 invariant [numbering] autoindex == 1 + created
+//@   loop 1 invariant [columns] len(st.Columns) == $i
+//@   loop 1 invariant [columns] forall j int :: 0 <= j && j < $i ==> COLRULE(ct, ct.Columns[j], st.Columns[j])
 //@   loop 2 invariant [numbering] autoindex == 1 + created
+//@   loop 2 invariant [columns] len(st.Columns) == len(ct.Columns)
+//@   loop 2 invariant [columns] forall j int :: 0 <= j && j < len(ct.Columns) ==> COLSTABLE(ct, ct.Columns[j], st.Columns[j])
+//@   loop 3 invariant [columns] len(st.Columns) == len(ct.Columns)
+//@   loop 3 invariant [columns] forall j int :: 0 <= j && j < len(ct.Columns) ==> COLSTABLE(ct, ct.Columns[j], st.Columns[j])
 
 //@ func db.newSchema
 //@   props C10 C05
